@@ -128,6 +128,7 @@ class Ctx:
         self.events = []              # writes to heap objects: (target, description)
         self.loop_specs = {}
         self.cache_known = {}
+        self.axioms = []
 
     # ---- fresh symbols --------------------------------------------------------------
     def _name(self, base):
@@ -191,12 +192,18 @@ class Ctx:
         self.cache_known[key] = (res, cond)     # keep the term alive: z3 reuses ids of freed terms
         return res
 
-    def assume(self, cond, why=None):
+    def assume(self, cond, why=None, axiom=False):
+        """axiom=True: a (typically quantified) fact that is handed to the prover with every obligation
+        but kept out of the path-feasibility queries of the explorer (sound: the explorer then
+        considers at least the feasible paths)."""
         if why:
             self.assumptions.add(why)
         if isinstance(cond, bool):
             if not cond:
                 raise Infeasible()
+            return
+        if axiom:
+            self.axioms.append(cond)
             return
         self.pc.append(cond)
 
@@ -226,7 +233,7 @@ class Ctx:
     def oblige(self, name, formula, kind='ensures', info=None):
         if isinstance(formula, bool):
             formula = z3.BoolVal(formula)
-        self.obligations.append(Obligation(name, self.pc, formula, kind, info))
+        self.obligations.append(Obligation(name, self.pc + self.axioms, formula, kind, info))
 
     def require(self, name, cond, exc=None):
         """A safety condition of a library operation.  With `exc` the failure is an outcome
